@@ -1075,18 +1075,30 @@ def do_forward_open_request(ot, to, prio, ticks, serial, vendor, oserial, mult, 
     return ok and [dict(s) for s in f.connection_path.segment] == CPATH
 
 
-for shape, (olo, ohi), (tlo, thi) in (('small_small', (1, 0x1FF), (1, 0x1FF)), ('large_large', (0x200, 0xFFFF), (0x200, 0xFFFF)),
-                                      ('small_large', (1, 0x1FF), (0x200, 0xFFFF)), ('large_small', (0x200, 0xFFFF), (1, 0x1FF))):
-    define(globals(), 'C01', 'forward_open_request_%s' % shape,
-           ['oid', 'orpi', 'osize', 'ovar', 'oprio', 'otype', 'ored', 'tid', 'trpi', 'tsize', 'tvar', 'tprio', 'ttype', 'tred', 'prio', 'ticks', 'serial', 'vendor', 'oserial', 'mult', 'transport'],
-           "return do_forward_open_request(conn(oid, orpi, osize, ovar, oprio, otype, ored), conn(tid, trpi, tsize, tvar, tprio, ttype, tred), prio, ticks, serial, vendor, oserial, mult, transport)",
-           ['0 <= oid <= 0xFFFFFFFF and 0 <= orpi <= 0xFFFFFFFF and %d <= osize <= %d and 0 <= ovar <= 1 and 0 <= oprio <= 3 and 0 <= otype <= 3 and 0 <= ored <= 1' % (olo, ohi),
-            '0 <= tid <= 0xFFFFFFFF and 0 <= trpi <= 0xFFFFFFFF and %d <= tsize <= %d and 0 <= tvar <= 1 and 0 <= tprio <= 3 and 0 <= ttype <= 3 and 0 <= tred <= 1' % (tlo, thi),
-            inr(['prio', 'ticks', 'mult', 'transport']), '0 <= serial <= 0xFFFF and 0 <= vendor <= 0xFFFF and 0 <= oserial <= 0xFFFFFFFF'],
-           timeout=1800, path_timeout=300, drives=FO_DRIVES,
-           bounds='Forward Open request with O->T %s / T->O %s connection: EVERY field symbolic (ids, RPIs 32 bit; size over the whole small resp. large range; '
-                  'variable, priority, type, redundant over their full range); either side large => Large Forward Open with both parameter words in the 32-bit '
-                  'layout' % tuple(shape.split('_')), outside='connection paths other than 1/0 -> @2/1')
+def C(size):
+    """a concrete connection (the other side of the obligation)"""
+    return conn(0x11223344, 0x00012345, size, 1, 0, 2, 0)
+
+
+RANGES = {'small': (1, 0x1FF), 'large': (0x200, 0xFFFF)}
+for shape in ('small_small', 'large_large', 'small_large', 'large_small'):
+    o, t = shape.split('_')
+    for side in ('O_T', 'T_O'):
+        lo, hi = RANGES[o if side == 'O_T' else t]
+        other = 400 if (t if side == 'O_T' else o) == 'small' else 4000
+        sym = "conn(cid, rpi, size, var, prio, ctype, red)"
+        call = "%s, C(%d)" % (sym, other) if side == 'O_T' else "C(%d), %s" % (other, sym)
+        define(globals(), 'C01', 'forward_open_request_%s_%s' % (shape, side),
+               ['cid', 'rpi', 'size', 'var', 'prio', 'ctype', 'red', 'ptt', 'ticks', 'serial', 'vendor', 'oserial', 'mult', 'transport'],
+               "return do_forward_open_request(%s, ptt, ticks, serial, vendor, oserial, mult, transport)" % call,
+               ['0 <= cid <= 0xFFFFFFFF and 0 <= rpi <= 0xFFFFFFFF and %d <= size <= %d and 0 <= var <= 1 and 0 <= prio <= 3 and 0 <= ctype <= 3 and 0 <= red <= 1' % (lo, hi),
+                inr(['ptt', 'ticks', 'mult', 'transport']), '0 <= serial <= 0xFFFF and 0 <= vendor <= 0xFFFF and 0 <= oserial <= 0xFFFFFFFF'],
+               tier='quick' if (shape, side) in (('small_small', 'O_T'), ('large_large', 'T_O'), ('small_large', 'O_T'), ('large_small', 'T_O'), ('large_small', 'O_T')) else 'thorough',
+               timeout=1800, path_timeout=300, drives=FO_DRIVES,
+               bounds='Forward Open request with O->T %s / T->O %s connection; EVERY field of the %s connection symbolic (id, RPI 32 bit; size over the whole %s '
+                      'range; variable, priority, type, redundant over their full range) plus all scalar header fields; the other connection concrete; either '
+                      'side large => Large Forward Open with both parameter words in the 32-bit layout' % (o, t, side, o if side == 'O_T' else t),
+               outside='both connections symbolic at once; connection paths other than 1/0 -> @2/1')
 
 
 def do_forward_open_reply(large, oid, tid, serial, vendor, oserial, oapi, tapi, n, a0, a1, a2):
